@@ -21,6 +21,7 @@ import (
 
 type VerifQueueConstants struct {
 	QueueLen, FutureSlots, GapSlack, AgentWindowMs int64
+	FlushAllSteps                                  int64 // how far the real Agent.FlushAllData advances SendTime
 	Resolutions                                    []int64
 }
 
@@ -39,6 +40,11 @@ func VerifQueueConsts() VerifQueueConstants {
 		}
 	}
 	sort.Slice(c.Resolutions, func(i, j int) bool { return c.Resolutions[i] < c.Resolutions[j] })
+	q := NewVerifQueue(1700000000, 5, 15, 1)
+	_, snd0 := q.Times()
+	q.ShutdownAndFlushAllData()
+	_, snd1 := q.Times()
+	c.FlushAllSteps = int64(snd1 - snd0)
 	return c
 }
 
@@ -64,6 +70,7 @@ func NewVerifQueue(nowUnix uint32, hwRes, hwSlowRes int32, numShards int) *Verif
 		logF:               func(f string, a ...any) {},
 		mappingsCache:      pcache.NewMappingsCache(data_model.NewChunkedStorageNop(), 1024*1024, 86400),
 		shardByMetricCount: uint32(numShards),
+		cancelFlushFunc:    func() {},
 	}
 	for i := 0; i < numShards; i++ {
 		shard := &Shard{
@@ -159,6 +166,37 @@ func (v *VerifQueue) Drain() (time uint32, items []VerifQueueItem, ok bool) {
 	default:
 		return 0, nil, false
 	}
+}
+
+type VerifQueueBucket struct {
+	Time  uint32
+	Items []VerifQueueItem
+}
+
+// ShutdownAndFlushAllData runs the REAL shutdown sequence of cmd/statshouse for the queue: Agent.ShutdownFlusher
+// (StopReceivingIncomingData on every shard) and Agent.FlushAllData (the real loop, which ends with StopPreprocessor
+// closing the channels), with a goroutine per shard playing the preprocessor. Returns, for this shard, every
+// bucket the preprocessor received (incl. one that was already waiting in the channel), in order.
+func (v *VerifQueue) ShutdownAndFlushAllData() []VerifQueueBucket {
+	var wg sync.WaitGroup
+	got := make([][]*data_model.MetricsBucket, len(v.A.Shards))
+	for i, sh := range v.A.Shards {
+		wg.Add(1)
+		go func(i int, sh *Shard) {
+			defer wg.Done()
+			for b := range sh.BucketsToPreprocess {
+				got[i] = append(got[i], b)
+			}
+		}(i, sh)
+	}
+	v.A.ShutdownFlusher()
+	v.A.FlushAllData()
+	wg.Wait()
+	var res []VerifQueueBucket
+	for _, b := range got[v.S.ShardNum] {
+		res = append(res, VerifQueueBucket{Time: b.Time, Items: verifQueueItems(b)})
+	}
+	return res
 }
 
 // Find looks an event id up in the ring (not in flight): ring index and stored key timestamp.
